@@ -496,3 +496,39 @@ class Shrinker:
                 if k2 in self.known_keys():
                     return alt, k2
         return small, key
+
+
+# ------------------------------------------------------------------------------------------ small-scope exhaustive slice
+
+
+def exhaustive_event_cases(max_nodes=2, max_items=2):
+    """every acyclic mixed graph on <= max_nodes labelled nodes (edges u->v only for u<v or v<u, optional u<->v) x every
+    event with <= max_items conjuncts V_S = v (S any consistent assignment to a subset of the nodes, v in {x, x'})"""
+    out = []
+    for n in range(1, max_nodes + 1):
+        nodes = list(range(n))
+        prs = list(itt.combinations(nodes, 2))
+        graphs = []
+        for dsel in itt.product((0, 1, 2), repeat=len(prs)):
+            di = [[u, w] if s == 1 else [w, u] for (u, w), s in zip(prs, dsel) if s]
+            try:
+                from . import cf_fscm as _S
+
+                _S.topo_order(nodes, [tuple(e) for e in di])
+            except ValueError:
+                continue
+            for bsel in itt.product((0, 1), repeat=len(prs)):
+                graphs.append({"nodes": nodes, "di": di, "bi": [[u, w] for (u, w), s in zip(prs, bsel) if s]})
+        worlds = []
+        for sel in itt.product((None, "m", "p"), repeat=n):
+            worlds.append(tuple((i, s) for i, s in enumerate(sel) if s))
+        conj = [[mkvar(vv, w), val] for vv in nodes for w in worlds for val in ("m", "p")]
+        events = [[c] for c in conj]
+        for k in range(2, max_items + 1):
+            for combo in itt.combinations(conj, k):
+                if len({C.enc(c[0]) for c in combo}) == k:
+                    events.append(list(combo))
+        for g in graphs:
+            for ev in events:
+                out.append({"g": g, "event": sort_event(ev), "seed": 7})
+    return out
